@@ -644,3 +644,57 @@ def lines_battery():
 
 
 lines_judge = literal_judge
+
+
+# ------------------------------------------------------------------ C11 binding
+
+def bind_battery():
+    S = [("in", "A", 1, 0), ("in", "CLK", 1, 0), ("out", "Y", 8), ("out", "Q", 8), ("bidir", "D", 8, "Z")]
+    b = []
+
+    def sc(src, want, note, sigs=S, then_run=True):
+        return Scenario(src, sigs, mode="run" if (want == "ok" and then_run) else "bind", default_answer=[0, 0, 0],
+                        expect={"bind": want}, note=note, max_rows=50)
+    b.append(sc("A Y\n0 1\n", "ok", "plain"))
+    b.append(sc("A Z9\n0 1\n", "err", "unknown header column"))
+    b.append(sc("A D D_out\n0 1 2\n", "ok", "bidirectional pair"))
+    b.append(sc("A D_out_out\n0 1\n", "err", "repeated _out suffix is not a column of D"))
+    b.append(sc("A A_out\n0 1\n", "err", "_out of a plain input"))
+    b.append(sc("P_out P_out_out\n1 2\n", "ok", "bidirectional signal literally named P_out", sigs=[("bidir", "P_out", 8, 0)]))
+    b.append(sc("CLK Y\nC 1\n", "ok", "C on an input"))
+    b.append(sc("A Y\n0 C\n", "err", "C on an output"))
+    b.append(sc("D1 D0 CLK Q\nbits(2,3) C 1\n", "err", "C after bits() lands on an output column",
+                sigs=[("in", "D1", 1, 0), ("in", "D0", 1, 0), ("out", "CLK", 1), ("out", "Q", 8)]))
+    b.append(sc("Q1 Q0 CLK\nbits(2,0) C\n", "ok", "C after bits() lands on an input column",
+                sigs=[("out", "Q1", 1), ("out", "Q0", 1), ("in", "CLK", 1, 0)]))
+    b.append(sc("A Y\n(Q) X\n", "ok", "reads an output"))
+    b.append(sc("A Y\n(A) X\n", "err", "reads an input"))
+    b.append(sc("A Y\n(nope) X\n", "err", "reads an unknown name"))
+    b.append(sc("A Y\nloop(i,2)\n(i) X\nend loop\n(i) X\n", "err", "loop variable read after the loop"))
+    b.append(sc("A Y\nloop(i,2)\n(i) X\nend loop\nlet i = 1;\n(i) X\n", "ok", "loop variable name rebound after the loop"))
+    b.append(sc("A Y\nrepeat(2) (n) X\n(n) X\n", "err", "repeat counter read after the repeat"))
+    b.append(sc("A Y\nlet k = 0;\nwhile(k < 1)\nlet k = k + 1;\nlet w = 5;\n(k) X\nend while\n(w) X\n", "ok", "variable bound inside a while is known afterwards"))
+    b.append(sc("A Y\nlet Q = Q + 1;\n(Q) X\n", "ok", "self-referential let reads the output Q"))
+    b.append(sc("A Y\nlet m = m + 1;\n(m) X\n", "err", "self-referential let of an unknown name"))
+    b.append(sc("A Y V\ndeclare V = Q;\nlet Q = 1;\n0 X X\n", "ok", "declare sees signals, not variables"))
+    b.append(sc("A Y V\nlet v = 1;\ndeclare V = v;\n0 X X\n", "err", "declare cannot see variables"))
+    b.append(sc("A Y\n0 1\n", "err", "duplicate signal names", sigs=[("in", "A", 1, 0), ("out", "Y", 8), ("out", "Y", 4)]))
+    b.append(sc("A Y\ndeclare Y = 1;\n0 1\n", "err", "virtual signal named like a real one"))
+    return b
+
+
+def bind_judge_one(o, sc):
+    w = literal_judge_one(o, sc)
+    if w:
+        return w
+    if sc.expect.get("bind") == "ok" and sc.mode == "run":
+        # a test accepted this way can always be iterated: nothing later is a header/program/signal mismatch
+        if not o.ok("NEW"):
+            return "an accepted test cannot be iterated: %s (%s)" % (o.stage.get("NEW"), sc.note)
+        for it in o.items:
+            if it[0] == "err" and ("not been assigned" in it[2] or "Variable" in it[2]):
+                return "an accepted test fails at run time with a scoping error: %s (%s)" % (it[2][:80], sc.note)
+    return None
+
+
+bind_judge = no_panic_judge(bind_judge_one)
